@@ -210,6 +210,45 @@ def check_target_boundary(spec, stats=None):
                    sample={"family": rspec["problem"]["obj"]["family"], "k": k, "where": spec["where"], "f_k": fk, "ftarget": ft, "message": tr.res["message"], "fun": tr.res["fun"]})
 
 
+# ---- dedicated generator: a tolerance that sits exactly on / one ulp around a projected-gradient norm the run attains
+# (incl. gtol = 0 on problems whose solution is a vertex of the box, where the projected gradient is exactly 0)
+def check_gtol_boundary(spec, stats=None):
+    rspec = spec["run"]
+    prob = build(rspec["problem"])
+    cfg = dict(rspec["cfg"])
+    ref = execute(rspec, prob=prob, callback="passive")
+    if ref.exc is not None:
+        raise ref.exc
+    x0c = np.clip(prob.x0, prob.lb, prob.ub)
+    pgs = [prob.pg(x0c, np.asarray(prob.obj.g(x0c), dtype=float))] + [prob.pg(c["snap"]["x"], c["snap"]["jac"]) for c in ref.cb]
+    k = min(spec["k"], len(pgs) - 1)
+    pk = float(pgs[k])
+    if not np.isfinite(pk):
+        raise Discard("non-finite projected gradient")
+    if spec["where"] == "zero":
+        gt = 0.0
+    else:
+        gt = {"below": float(np.nextafter(pk, -np.inf)), "at": pk, "above": float(np.nextafter(pk, np.inf))}[spec["where"]]
+    if gt < 0:
+        gt = 0.0
+    cfg["gtol"] = gt
+    tr = run_min(prob, cfg, callback="passive", gtol_callable=spec["callable"])
+    if tr.exc is not None:
+        raise tr.exc
+    msg = judge(tr, prob, cfg, n0=1, nit0=0, gtol=gt, ftarget_val=None, scale=1.0, cb_schedule_hit=None, mode="callable", tag="gtol-boundary")
+    if stats is not None:
+        hit = msg == MSG_PGTOL
+        stats.case(spec, True, ["kind=gtol-boundary", f"where={spec['where']}", f"msg={msg[:30]}", f"k={min(k, 3)}", f"pg_exactly_gtol={hit and prob.pg(tr.res['x'], tr.res['jac']) == gt}"],
+                   sample={"family": rspec["problem"]["obj"]["family"], "k": k, "where": spec["where"], "pg_k": pk, "gtol": gt, "message": msg, "nit": tr.res["nit"]})
+
+
+@st.composite
+def gtol_boundary_strategy(draw):
+    r = draw(run_spec(families=ALL_FAMILIES, n_max=6, jac_modes=("callable",), maxiter=(0, 12), maxfun=(50, 200), ftols=(0.0,), gtols=(1e-10,),
+                      box_mode=draw(st.sampled_from([None, "boxed", "boxed"])), narrow=draw(st.booleans())))
+    return {"kind": "gtol", "run": r, "k": draw(st.integers(0, 8)), "where": draw(st.sampled_from(["below", "at", "at", "above", "zero"])), "callable": draw(st.booleans())}
+
+
 @st.composite
 def target_boundary_strategy(draw):
     r = draw(run_spec(families=ALL_FAMILIES, n_max=6, jac_modes=("callable",), maxiter=(0, 12), maxfun=(50, 200), ftols=(0.0,), gtols=(1e-10,)))
@@ -219,11 +258,14 @@ def target_boundary_strategy(draw):
 def shard(ctx):
     ctx.hyp("histories", strategy(), check, ctx.pick(6000, 150000))
     ctx.hyp("target-boundary", target_boundary_strategy(), check_target_boundary, ctx.pick(2500, 40000))
+    ctx.hyp("gtol-boundary", gtol_boundary_strategy(), check_gtol_boundary, ctx.pick(2500, 40000))
     ctx.hyp("restart-budget", restart_budget_strategy(), check_restart_budget, ctx.pick(4000, 60000))
 
 
 def replay(spec):
-    if "where" in spec:
+    if spec.get("kind") == "gtol":
+        check_gtol_boundary(spec, None)
+    elif "where" in spec:
         check_target_boundary(spec, None)
     elif "delta" in spec:
         check_restart_budget(spec, None)
